@@ -8,6 +8,7 @@ import (
 	"github.com/taurusgroup/multi-party-sig/verif/fw"
 	"github.com/taurusgroup/multi-party-sig/verif/ref"
 	"github.com/taurusgroup/multi-party-sig/verif/scen"
+	"github.com/taurusgroup/multi-party-sig/verif/sim"
 )
 
 func init() {
@@ -95,6 +96,14 @@ func runC08(c *fw.Ctx) {
 			oldShares[id] = new(big.Int).Set(prev.Share(id))
 		}
 		snap := snapshotMaterial(prev)
+		// fault: a refresh that is interrupted (every delivery after a drawn step is lost, as when a peer
+		// or the network dies) and then abandoned. A party whose refresh did not complete must still hold
+		// its pre-refresh material unchanged, and if nobody completed the old epoch must still sign.
+		if c.S.Draw(3, "interrupted-refresh") == 2 {
+			if !interruptedRefresh(c, p, prev, snap, Y, t, e) {
+				return
+			}
+		}
 		m2, rs := DoRefresh(c, prev, fmt.Sprintf("rf%d", e), true)
 		hashes += rs.DeliveryHash()
 		if rs.CheckCrash(c, "refresh") || !requireAll(c, p, rs, fmt.Sprintf("refresh #%d", e)) {
@@ -167,4 +176,55 @@ func snapshotMaterial(m *scen.Material) *scen.Material {
 		out.Cfg[id] = scen.FreezeShare(m.Proto, cfg, m.Share(id))
 	}
 	return out
+}
+
+// interruptedRefresh runs a refresh session that loses every message after a drawn step, then checks
+// the material the parties are left with.
+func interruptedRefresh(c *fw.Ctx, p scen.Proto, held *scen.Material, snap *scen.Material, Y ref.Pt, t, epoch int) bool {
+	ids := held.IDs
+	tag := fmt.Sprintf("rf%d-interrupted", epoch)
+	s := scen.NewSession(c, tag, held.RefreshMk([]byte(c.Label("sid", tag))), nil)
+	// a fault-free refresh needs about n*(n-1)*rounds deliveries; cut somewhere inside
+	n := len(ids)
+	budget := n * (n - 1) * 4
+	if p == scen.Doerner {
+		budget = 4
+	}
+	cut := c.S.Draw(budget+1, "cut-after")
+	s.Net.BeforeDeliver = func(e *sim.Env, to *sim.Node) bool { return s.Net.Steps <= cut }
+	s.Run(c, true)
+	c.Fault("refresh_interrupted", 1)
+	if s.CheckCrash(c, "interrupted refresh") {
+		return false
+	}
+	vals, _ := s.Results()
+	completed := 0
+	for _, id := range ids {
+		if _, ok := vals[id]; ok {
+			completed++
+			continue
+		}
+		// did not complete: the config object the party passed in must be unchanged
+		before, _ := scen.ConfigDigest(p, snap.Cfg[id])
+		after, _ := scen.ConfigDigest(p, held.Cfg[id])
+		if before != after {
+			c.Violate(p.String()+"/abandoned-refresh-modified-held-material", "refresh #%d was interrupted after %d deliveries and party %q did not complete it, yet the key material it passed in was modified\n  before %s\n  after  %s", epoch, cut, id, trimS(before, 200), trimS(after, 200))
+			return false
+		}
+	}
+	c.Probe(fmt.Sprintf("interrupted_refresh_completed_%d_of_%d", completed, n), 1)
+	if completed == 0 {
+		// everybody is still on the old epoch: it must still work
+		signers := capSigners(p, scen.DrawSubset(c.S, ids, t+1), t)
+		msg := scen.DrawMsg(c)
+		ss := scen.NewSession(c, tag+"-sign", held.SignMk(signers, msg, []byte(c.Label("sid", tag+"-sign")), scen.SignPlain), nil)
+		ss.Run(c, true)
+		if ss.CheckCrash(c, "sign after an abandoned refresh") {
+			return false
+		}
+		if _, ok := CheckSignOutcome(c, p, ss, signers, Y, msg, "sign with the material held after an abandoned refresh", true); !ok {
+			return false
+		}
+	}
+	return true
 }
